@@ -75,6 +75,14 @@ func Fault(label string) bool {
 	return v == "true"
 }
 
+func bigFromString(v string) *big.Int {
+	b, ok := new(big.Int).SetString(v, 10)
+	if !ok {
+		panic("sym: bad integer in replay: " + v)
+	}
+	return b
+}
+
 func bigOf(name string) *big.Int {
 	v, ok := next(name)
 	if !ok {
